@@ -144,8 +144,19 @@ def load_known(prop_id):
     return [e for e in data.get("findings", []) if e.get("property") == prop_id]
 
 
+def entry_signatures(e):
+    out = set(e.get("signatures") or [])
+    if e.get("signature"):
+        out.add(e["signature"])
+    return out
+
+
 def open_signatures(prop_id):
-    return {e["signature"] for e in load_known(prop_id) if e.get("status") == "open"}
+    out = set()
+    for e in load_known(prop_id):
+        if e.get("status") == "open":
+            out |= entry_signatures(e)
+    return out
 
 
 # --------------------------------------------------------------------------- hypothesis plumbing
@@ -341,7 +352,7 @@ def main(modname):
             res = check.run_case(e["replay"])
             hit = [d for d in res.disagreements]
             if e.get("status") == "open":
-                if any(d.signature == e["signature"] for d in hit):
+                if any(d.signature in entry_signatures(e) for d in hit):
                     print(f"KNOWN-FINDING: property={check.id} {e['id']} {e['what']}")
                 else:
                     print(
